@@ -32,8 +32,8 @@ the models built on it: `Model/Unrealised.lean` for `price` / `process`, `Model/
   shows the two differ exactly there (an L1 event stamped at or before 1970-01-01T00:00:00Z on a fresh
   instrument is dropped by the code).
 * The open-order guards of `engine/state/order/mod.rs` (`current.time_exchange <= update.time_exchange`)
-  sit inside `match` arms over the `HashMap` entry API and closures; they are not whole functions
-  and are NOT translated (C01 / C09 tie them by correspondence only).
+  sit inside `match` arms over the `HashMap` entry API; they are translated since round 5 (group
+  `orders`, map vocabulary) and proved in `OrdersSM.lean`, not here.
 -/
 namespace BarterModel.KernelsAgree.RegistersSM
 open BarterModel BarterModel.Stale
